@@ -3,8 +3,34 @@
 
 Applies /verif/seeded/<id>/patch.diff to /repo (git apply), runs the check of the property it
 breaks (and any extra checks), records in meta.json which check caught it and with what
-replay, and undoes the change straight afterwards (git checkout -- .)."""
-import json, os, subprocess, sys, re
+replay, and undoes the change straight afterwards (git checkout -- .).
+
+The checks rewrite evidence/<id>.json and the extractor output on every run; the files written
+while the patch was applied describe the PATCHED tree, so they are saved before and put back
+after (the committed evidence must always describe the unchanged tree)."""
+import json, os, shutil, subprocess, sys, re, tempfile
+
+GENERATED = ["lean/WfModel/Generated.lean", "lean/WfModel/Generated.report.json"]
+
+def save_outputs(pids):
+    keep = tempfile.mkdtemp(prefix="seedrun-keep-")
+    for rel in [f"evidence/{p}.json" for p in pids] + GENERATED:
+        src = os.path.join("/verif", rel)
+        if os.path.exists(src):
+            dst = os.path.join(keep, rel)
+            os.makedirs(os.path.dirname(dst), exist_ok=True)
+            shutil.copy2(src, dst)
+    return keep
+
+def restore_outputs(keep, pids):
+    for rel in [f"evidence/{p}.json" for p in pids] + GENERATED:
+        src = os.path.join(keep, rel)
+        dst = os.path.join("/verif", rel)
+        if os.path.exists(src):
+            shutil.copy2(src, dst)
+        elif os.path.exists(dst) and rel.startswith("evidence/"):
+            os.remove(dst)
+    shutil.rmtree(keep, ignore_errors=True)
 
 def sh(cmd, cwd=None, timeout=7200):
     p = subprocess.run(cmd, cwd=cwd, shell=True, stdout=subprocess.PIPE, stderr=subprocess.STDOUT, timeout=timeout)
@@ -33,6 +59,7 @@ def main():
         if rc != 0:
             print(f"{sid}: patch does not apply: {out[-200:]}"); continue
         results = meta.get("checks", {})
+        keep = save_outputs([meta["property"]] + also)
         try:
             for pid in [meta["property"]] + also:
                 rc, out = sh(f"bin/check {pid} --tier {tier}", cwd="/verif")
@@ -53,6 +80,7 @@ def main():
         finally:
             sh("git checkout -- .", cwd="/repo")
             sh("git clean -fdq engine ffi", cwd="/repo")
+            restore_outputs(keep, [meta["property"]] + also)
         meta["checks"] = results
         json.dump(meta, open(os.path.join(d, "meta.json"), "w"), indent=1)
 
